@@ -9,7 +9,7 @@ CLAIMED = {
         "step and nesting depth, that accepted indices and slices denote exactly Python's selection (pyBits, a transcription of "
         "CPython's slice algorithm), that width = number of bits, that empty / out-of-range selections are rejected, that all "
         "exported bits lie inside their signal; that the resolver *answers* for every connectable with a denotation (resolve_total: the fuel needR c, computed from the "
-        "expression, bounds the recursion — the model's fuel argument is discharged, and the driver hands the resolver exactly that much); tied to the code by an exhaustive-box correspondence on Signal[...] "
+        "expression, bounds the recursion — the model's fuel argument is discharged, and the driver hands the resolver exactly that much); that integer indices and unit-step ranges, at any depth, are resolved and exported with their bits (unit_step_accepted: resolve_unit, export_total); tied to the code by an exhaustive-box correspondence on Signal[...] "
         "(model = implementation = list slicing) and by nested Slice/Concat trees exported and read back from the package.",
         note="Model hand-written after hdl21/slice.py and hdl21/elab/passes/slices.py; correspondence and the property predicate run on "
         "/repo's working tree each time. Trusted: Lean kernel + standard axioms, CPython list slicing as oracle, the harness reading of packages.",
@@ -246,7 +246,7 @@ CLAIMED = {
         "target, an open port, a connection to a port that does not exist, a connection of another width or without a width (an index out of range, an empty or zero-step slice at any depth), "
         "a signal the module does not declare: each, planted anywhere, makes the composition refuse; compared with elaborate + to_proto by the module_pipe stream (planted faults of each class). "
         "Edits made after a completed export (reconnect to another width, widen a child's port, disconnect) are exported as they are: three recorded known findings (known_findings.json, "
-        "after-export:*), the root cause of the C08 repair-and-retry entries. design_accepts_only_wellformed: across the hierarchy, a package comes back only if every instance of every module is well-formed against what its target was exported as. module_elaboration_accepts: conversely nothing well-formed is refused by the five passes (with C03's resolve_total) — the composed passes accept exactly the well-formed F1 modules.",
+        "after-export:*), the root cause of the C08 repair-and-retry entries. design_accepts_only_wellformed: across the hierarchy, a package comes back only if every instance of every module is well-formed against what its target was exported as. module_elaboration_accepts: conversely nothing well-formed is refused by the five passes (with C03's resolve_total) — the composed passes accept exactly the well-formed F1 modules. module_pipeline_accepts_iff: for modules whose indices are integers or unit-step ranges, passes and exporter return a module iff every instance is well-formed.",
         note="Of the checking passes MarkModules is not modelled in Lean (ConnTypes, Orphanage and ResolvePortRefs' refusals are); that the modelled checks together cover every "
         "fault class rests on the mutation correspondence. Clashing module names are an export-level fault: elaborate() alone is not required to notice them.",
         ref="DESIGN.md §6 C02",
